@@ -45,6 +45,8 @@ type World struct {
 	MapNonCanonical int
 	MapRanges       int
 	lastImg         map[string]string
+	DirOrders       int      // directory listings delivered in a simulated (non-sorted) order
+	Devices         []string // path prefixes that are separate file systems (rename across them is EXDEV)
 }
 
 var W *World
@@ -69,6 +71,7 @@ func NewWorld(spec *WorldSpec) *World {
 		MapSeed: spec.MapSeed,
 		Epoch:   spec.Epoch,
 		B:       DefaultBudgets(),
+		Devices: append([]string(nil), spec.Devices...),
 	}
 	if spec.Budgets != nil {
 		w.B = *spec.Budgets
@@ -234,6 +237,17 @@ func (w *World) lookup(p string) (*node, syscall.Errno) {
 	return nil, syscall.ENOENT
 }
 
+// deviceOf returns the index of the longest device prefix containing p (-1: the root file system).
+func (w *World) deviceOf(p string) int {
+	best, bestLen := -1, -1
+	for i, d := range w.Devices {
+		if (p == d || strings.HasPrefix(p, d+"/")) && len(d) > bestLen {
+			best, bestLen = i, len(d)
+		}
+	}
+	return best
+}
+
 func digest(b []byte) string {
 	h := sha256.Sum256(b)
 	return hex.EncodeToString(h[:6])
@@ -272,6 +286,8 @@ func errnoName(e syscall.Errno) string {
 		return "EINVAL"
 	case syscall.EBADF:
 		return "EBADF"
+	case syscall.EXDEV:
+		return "EXDEV"
 	}
 	return fmt.Sprintf("errno%d", int(e))
 }
@@ -663,6 +679,9 @@ func (w *World) rename(oldname, newname string) error {
 	}
 	q := w.resolve(newname)
 	n, e := w.lookup(p)
+	if e == 0 && w.deviceOf(p) != w.deviceOf(q) {
+		e = syscall.EXDEV
+	}
 	if e == 0 {
 		parent, e2 := w.lookup(filepath.Dir(q))
 		if e2 != 0 {
@@ -820,5 +839,33 @@ func (w *World) readDir(name string) ([]fs.DirEntry, error) {
 		}
 	}
 	ev.N = len(out)
+	return out, nil
+}
+
+// readDirRaw is the order a directory handle reports (File.ReadDir, Readdir,
+// Readdirnames): unlike os.ReadDir it is NOT sorted; the real order depends on
+// the file system, so the simulator decides it like a map iteration order.
+func (w *World) readDirRaw(name string) ([]fs.DirEntry, error) {
+	out, err := w.readDir(name)
+	if err != nil || len(out) < 2 {
+		return out, err
+	}
+	switch w.MapMode {
+	case "reversed":
+		for i, j := 0, len(out)-1; i < j; i, j = i+1, j-1 {
+			out[i], out[j] = out[j], out[i]
+		}
+	case "rotate":
+		r := int((w.MapSeed + uint64(w.IOSeq)) % uint64(len(out)))
+		out = append(out[r:], out[:r]...)
+	case "shuffle":
+		s := w.MapSeed ^ (uint64(w.IOSeq) * 0x9E3779B97F4A7C15)
+		for i := len(out) - 1; i > 0; i-- {
+			s = splitmix(s)
+			j := int(s % uint64(i+1))
+			out[i], out[j] = out[j], out[i]
+		}
+	}
+	w.DirOrders++
 	return out, nil
 }
